@@ -1,5 +1,5 @@
 """C11 — clock times survive encoding and decoding in every time zone and on every date."""
-import datetime as D, re, zoneinfo
+import os, datetime as D, re, zoneinfo
 import lib, world
 COQ_TARGET = "C11"
 TRUSTED = ["zone tables (TZif) are trusted input; that libc's localtime / mktime follow the table of the configured zone is checked by "
@@ -67,9 +67,9 @@ def gen(rnd, zone, tier):
     return cases
 
 
-def run_zone(out, stream, zone, cases):
+def run_zone(out, stream, zone, cases, res=None):
     tz = zoneinfo.ZoneInfo(zone); zd, tr = world.zone_args(zone)
-    res = world.zone_job(zone, "clock", [{"now": c["now"], "s": c["s"]} for c in cases])
+    if res is None: res = world.zone_job(zone, "clock", [{"now": c["now"], "s": c["s"]} for c in cases])
     mo_raw = lib.run_model([lib.req("clock_encode", zd, tr, c["now"], c["s"]) for c in cases])
     io = []; mo = []; ex = []; spec_impl = []; nontriv = set()
     for c, r, m in zip(cases, res, mo_raw):
@@ -104,8 +104,38 @@ def run(tier, rnd, out):
     zones = world.ZONES_QUICK + ["Africa/Casablanca", "America/Mexico_City"] if tier == "quick" else world.ZONES_QUICK + world.ZONES_MORE + ["America/Mexico_City"]
     for c in lib.load_corpus("C11"): run_zone(out, "corpus", c["zone"], [c])
     for zone in zones: run_zone(out, "encode-decode", zone, gen(rnd, zone, tier))
+    # ONE process whose host zone is switched (TZ + tzset) between calls: the same clock strings at the same instants under zones that share
+    # their standard offset but not their summer time (and unrelated ones), each zone visited twice
+    groups = [["Europe/London", "UTC", "Africa/Abidjan"], ["America/New_York", "America/Lima", "America/Bogota"], ["Australia/Sydney", "Australia/Brisbane"],
+              ["Europe/Berlin", "Africa/Algiers", "Africa/Lagos"], ["Asia/Jerusalem", "Africa/Cairo", "Europe/Athens", "Africa/Johannesburg"]]
+    for g in groups:
+        g = [z for z in g if os.path.exists("/usr/share/zoneinfo/" + z)]
+        if len(g) < 2: continue
+        nows = [1689768000, 1705320000, 1721044800 + 3600 * rnd.randrange(24)]          # a July, a January, another July instant
+        strs = ["00:00", "01:30", "12:00", "23:59", "%02d:%02d" % (rnd.randrange(24), rnd.randrange(60))]
+        order = g + g[::-1] + g
+        allc = [{"zone": z, "now": now, "s": s_} for now in nows for z in order for s_ in strs]
+        res = world.zone_job(g[0], "clock", [{"now": c["now"], "s": c["s"], "zone": c["zone"]} for c in allc])
+        for z in g:
+            idx = [k for k, c in enumerate(allc) if c["zone"] == z]
+            run_zone(out, "host-zone-changed-within-one-process", z, [allc[k] for k in idx], [res[k] for k in idx])
+        # and the decoder alone: the SAME timestamps decoded under each zone in turn
+        ts = [n + 60 * k for n in nows for k in (0, 61, 725)]
+        dc = [{"zone": z, "t": t} for t in ts for z in order]
+        got = world.zone_job(g[0], "decode", [{"hex": t.to_bytes(4, "little").hex(), "zone": c["zone"]} for c in dc for t in [c["t"]]])
+        want = [D.datetime.fromtimestamp(c["t"], zoneinfo.ZoneInfo(c["zone"])).strftime("%H:%M") for c in dc]
+        mo = []
+        for c in dc:
+            zd, tr = world.zone_args(c["zone"]); mo.append(lib.run_model([lib.req("clock_decode", zd, tr, c["t"].to_bytes(4, "little").hex())])[0])
+        lib.differential(out, "same-timestamps-decoded-under-zones-in-turn-in-one-process", dc, got, [m[3:] if m.startswith("ok ") else m for m in mo], want,
+                         lambda c: "zone %s hexadecimale_timestamp_to_localtime(%d) after the same under other zones" % (c["zone"], c["t"]), sample=lambda c: c, classify=lambda c, i: "decode/" + c["zone"])
 
 
 def replay(rp, out):
     c = rp["input"]
     if "s" in c: run_zone(out, rp.get("stream", "replay"), c["zone"], [c])
+    elif "t" in c:          # a timestamp decoded under this zone after the same under another zone of the same standard offset, in one process
+        other = {"UTC": "Europe/London", "Europe/London": "UTC"}.get(c["zone"], "UTC"); hx = c["t"].to_bytes(4, "little").hex()
+        got = world.zone_job(other, "decode", [{"hex": hx, "zone": other}, {"hex": hx, "zone": c["zone"]}])[1:]
+        want = [D.datetime.fromtimestamp(c["t"], zoneinfo.ZoneInfo(c["zone"])).strftime("%H:%M")]
+        lib.differential(out, rp.get("stream", "replay"), [c], got, None, want, lambda c: "zone %s hexadecimale_timestamp_to_localtime(%d) after the same under %s" % (c["zone"], c["t"], other))
